@@ -89,7 +89,7 @@ Section Eval.
 
   Lemma run_line_grows : forall l s, grows s (fst (fst (run_line s l))).
   Proof.
-    induction l as [z|t id|t id|t id|l IH|l IH|id ext|id|id z|l IH| |]; intros s; cbn [Sys.run_line].
+    induction l as [z|t id|t id|t id|l IH|l IH|id ext|id|id z|l IH|l IH| |]; intros s; cbn [Sys.run_line].
     - apply grows_refl.
     - destruct (is_loadable t); cbn [negb fst]; [|apply grows_refl].
       pose proof (Hent s t id) as G. destruct (load_entry_rec s t id) as [[s1 tr] r]. exact G.
@@ -114,6 +114,7 @@ Section Eval.
         cbn [fst] in *. eapply grows_trans; [apply grows_same; exact C|exact G].
     - specialize (IH (rec_push s None)). destruct (run_line (rec_push s None) l) as [[s1 tr] r].
       cbn [fst] in *. eapply grows_trans; [exact IH|]. apply grows_same, cache_rec_pop.
+    - specialize (IH s). destruct (run_line s l) as [[s1 tr] r]. exact IH.
     - apply grows_refl.
     - apply grows_refl.
   Qed.
